@@ -183,6 +183,8 @@ impl Judge<'_> {
         let r = guarded(f);
         let (peak, largest) = alloc::end();
         let bound = 64 * self.input_len + 64 * 1024;
+        let ratio = peak / self.input_len.max(1);
+        self.ctx.stats.reach(if ratio == 0 { "peak/input<1" } else if ratio < 4 { "peak/input:1..4" } else if ratio < 16 { "peak/input:4..16" } else if ratio < 64 { "peak/input:16..64" } else { "peak/input>=64" });
         if peak > bound || largest > bound {
             self.ctx.fail(
                 "C17",
@@ -194,6 +196,7 @@ impl Judge<'_> {
         match r {
             Ok(v) => Some(v),
             Err(p) => {
+                self.ctx.stats.reach("reader-call-panicked");
                 self.outcomes.push('P');
                 self.ctx.fail("C07", "panic", p.site(), format!("{} ({}): {}", name, self.field, p.text()));
                 None
